@@ -2286,7 +2286,12 @@ class AddPrefixSeries(Elemwise):
     _filter_passthrough = True
 
     def _divisions(self):
-        return tuple(self.prefix + str(division) for division in self.frame.divisions)
+        divisions = self.frame.divisions
+        # the new labels only sort like the old ones if those are strings already
+        # ("p9" > "p10"), unknown divisions stay unknown
+        if all(isinstance(division, str) for division in divisions):
+            return tuple(f"{self.prefix}{division}" for division in divisions)
+        return (None,) * len(divisions)
 
 
 class AddSuffixSeries(AddPrefixSeries):
@@ -2294,7 +2299,9 @@ class AddSuffixSeries(AddPrefixSeries):
     operation = M.add_suffix
 
     def _divisions(self):
-        return tuple(str(division) + self.suffix for division in self.frame.divisions)
+        # appending to the labels does not keep their order, not even for strings
+        # ("a" < "ab" but "a_x" > "ab_x")
+        return (None,) * (self.frame.npartitions + 1)
 
 
 class AddPrefix(Elemwise):
